@@ -144,6 +144,10 @@ def both (op : String) (args : List String) : Option (String × String) :=
   | "poly.getlist", [a, l] => do
       let a ← parsePoly? a; let l ← parseIntList? l
       pure (fmtE fmtPoly (a.getList l) ++ ";" ++ fmtPoly a, "-")
+  | "poly.getpoly", [a, l] => do
+      -- the index sequence is itself a Poly (as in `sboxtable[word]`)
+      let a ← parsePoly? a; let l ← parsePoly? l
+      pure (fmtE fmtPoly (a.getList l.ival) ++ ";" ++ fmtPoly a, "-")
   | "poly.setint", [a, i, v] => do
       let a ← parsePoly? a; let i ← parseInt? i; let v ← parseRVal? v
       match v with
